@@ -23,7 +23,7 @@ MANIFEST = {
     'note': 'Speeds taken non-negative for the order proofs; extension link by link is C06-7 (speed points are among pass 1\'s vectors).',
 }
 EXPLANATION = 'min_speed spec, seed, add_speeds aggregate, speed_set_applies arm tables, per-site upper-bound obligations on insert_speed.'
-RULES = ['C02-1.min_speed', 'C02-2.seed', 'C02-3.add_speeds', 'C02-4.applies', 'C02-5.sites', 'C02-6.search', 'C02-7.select']
+RULES = ['C02-1.min_speed', 'C02-2.seed', 'C02-3.add_speeds', 'C02-4.applies', 'C02-5.sites', 'C02-6.search', 'C02-7.select', 'C02-8.base']
 ASSUMPTIONS = ['speeds are non-negative in the order proofs', 'idx_start / idx_end are the positions their search loops are meant to find (not decided)']
 
 
@@ -35,3 +35,8 @@ def run(ctx):
     SP.add_speeds(ctx)
     SP.applies(ctx)
     SP.select_set(ctx)
+    # every restriction is placed relative to the start offset of its link: the link points of the path (cumulative link lengths,
+    # clauses of C06-1) are what `offset_base` is read from
+    from .common import RuleProxy
+    from . import C06
+    C06.run(RuleProxy(ctx, {'C06-1.linkpoints': 'C02-8.base'}))
